@@ -492,8 +492,9 @@ def alloc_symmetry_cxx(ctx, crate, cx):
             calls_detach = "detach" in names
             via = [k for k, v in mutable_ok.items() if v and k in names and k != m.get("name")]
             # a call of an overloaded member (begin / end) is an UnresolvedMemberExpr without a name in clang's JSON; in a
-            # non-const method it binds to the non-const overload, which is fine once begin and end themselves detach
-            if not via and cxx.walk(m, lambda n: n.get("kind") == "UnresolvedMemberExpr") and mutable_ok.get("begin") and mutable_ok.get("end"):
+            # non-const method it binds to the non-const overload, which is fine once some other mutable accessor (begin) detaches itself
+            if not via and cxx.walk(m, lambda n: n.get("kind") == "UnresolvedMemberExpr") and \
+                    any(v for k, v in mutable_ok.items() if k != m.get("name")):
                 via = ["<overloaded accessor>"]
             mutable_ok[m.get("name")] = calls_detach or bool(via)
     for name, ok in sorted(mutable_ok.items()):
